@@ -4,6 +4,8 @@
 #include "vf_enum.hpp"
 #include "sched/vf_sched.hpp"
 #include "algorithms/openmp/tbfopenmpalgorithm.hpp"
+#include "algorithms/sequential/tbfalgorithmtsm.hpp"
+#include "algorithms/periodic/tbfalgorithmperiodictoptree.hpp"
 #ifdef VF_C04
 #include "kernels/rotationkernel/FRotationKernel.hpp"
 #endif
@@ -145,11 +147,12 @@ long double maxDiff(const Res& a, const Res& b, const std::vector<long double>& 
 double boundPot(int P){ return P == 4 ? 1.1e-2 : P == 6 ? 5.6e-3 : P == 8 ? 9.2e-4 : 3.4e-4; }
 double boundForce(int P){ return P == 4 ? 1.3e-1 : P == 6 ? 5.4e-2 : P == 8 ? 2.6e-2 : 8.0e-3; }
 constexpr bool SingularSetIsFinding = true;     // set 4 (leaf centres / axes) is singular for spherical expansions (finding D14)
-template <class Real, int P> struct K4 {
+template <class Real, int P, class SIx = TbfDefaultSpaceIndexType<Real>> struct K4 {
     static constexpr long VectorSize = ((P+2)*(P+1))/2;
     using M = std::array<std::complex<Real>, VectorSize>;
     using L = std::array<std::complex<Real>, VectorSize>;
-    using Kernel = FRotationKernel<Real, P>;
+    using Kernel = FRotationKernel<Real, P, SIx>;
+    template <class S2> using Rebind = K4<Real, P, S2>;
     static auto maker(){ return [](const TbfSpacialConfiguration<Real,3>& cfg){ return std::make_unique<Kernel>(cfg); }; }   // heap: a P=12 kernel is ~16 MB
     static const char* name(){ return "rotation"; }
 };
@@ -160,12 +163,13 @@ constexpr bool SingularSetIsFinding = false;
 // 9.5e-2 / 3.2e-2 / 9.1e-3 / 2.5e-3 / 6.8e-4 / 1.8e-4 for order 3 / 4 / 5 / 6 / 7 / 8; bounds = 3 x that
 double boundPot(int O){ return O == 3 ? 5.6e-3 : O == 4 ? 1.4e-3 : O == 5 ? 4.2e-4 : O == 6 ? 5.3e-5 : O == 7 ? 1.3e-5 : 4.8e-6; }
 double boundForce(int O){ return O == 3 ? 2.9e-1 : O == 4 ? 1.0e-1 : O == 5 ? 2.8e-2 : O == 6 ? 7.5e-3 : O == 7 ? 2.1e-3 : 5.5e-4; }
-template <class Real, int ORDER> struct K5 {
+template <class Real, int ORDER, class SIx = TbfDefaultSpaceIndexType<Real>> struct K5 {
+    template <class S2> using Rebind = K5<Real, ORDER, S2>;
     static constexpr long VectorSize = TensorTraits<ORDER>::nnodes;
     static constexpr long TransformedVectorSize = (2*ORDER-1)*(2*ORDER-1)*(2*ORDER-1);
     struct M { Real multipole_exp[VectorSize]; std::complex<Real> transformed_multipole_exp[TransformedVectorSize]; };
     struct L { Real local_exp[VectorSize]; std::complex<Real> transformed_local_exp[TransformedVectorSize]; };
-    using Kernel = FUnifKernel<Real, FInterpMatrixKernelR<Real>, ORDER>;
+    using Kernel = FUnifKernel<Real, FInterpMatrixKernelR<Real>, ORDER, 3, SIx>;
     static FInterpMatrixKernelR<Real>& interp(){ static FInterpMatrixKernelR<Real> i; return i; }
     static auto maker(){ return [](const TbfSpacialConfiguration<Real,3>& cfg){ return std::make_unique<Kernel>(cfg, &interp()); }; }
     static const char* name(){ return "uniform"; }
@@ -250,6 +254,138 @@ void evalConfig(const int height, const int boxId, const int setId, Report& rep,
     if(rep.samples.size() < 5) rep.sample(base);
 }
 
+
+// ---- periodic variant against the explicit image sum, target/source variant against the direct sum over the sources --------
+#ifdef VF_C04
+// periodic: measured worst case 1.7e-4 / 6.0e-5 (potential) and 2.5e-3 / 1.3e-3 (force) for P = 4 / 8 against the explicit image sum; x 3
+double boundPotPer(int P){ return P == 4 ? 5.2e-4 : P == 8 ? 1.8e-4 : boundPot(P); }
+double boundForcePer(int P){ return P == 4 ? 7.5e-3 : P == 8 ? 3.9e-3 : boundForce(P); }
+#else
+// periodic: measured worst case 1.4e-4 / 3.4e-6 (potential) and 9.7e-4 / 6.2e-5 (force) for order 4 / 6; x 3
+double boundPotPer(int O){ return O == 4 ? 4.1e-4 : O == 6 ? 1.0e-5 : boundPot(O); }
+double boundForcePer(int O){ return O == 4 ? 2.9e-3 : O == 6 ? 1.9e-4 : boundForce(O); }
+#endif
+
+template <class Real, class KT0, int ORD>
+void evalPeriodicNum(const int height, const int boxId, const int setId, const long extra, Report& rep, Progress& pg, Measure& ms){
+    using SIP = TbfDefaultSpaceIndexTypePeriodic<Real>;
+    using KT = typename KT0::template Rebind<SIP>;
+    using M = typename KT::M; using L = typename KT::L; using Kernel = typename KT::Kernel;
+    using Tree = TbfTree<Real, Real, 4, Real, 4, M, L, SIP>;
+    using Top = TbfAlgorithmPeriodicTopTree<Real, Kernel, M, L, SIP>;
+    const BoxN& box = BOXES[boxId];
+    std::vector<std::array<Real,4>> parts;
+    const auto pts = particleSet(setId);
+    for(size_t i = 0 ; i < pts.size() && parts.size() < 60 ; ++i){
+        const double corner = box.centre - box.width/2;
+        // keep the particles strictly inside the box (a point on the upper face coincides with the image of the lower face)
+        const double x = std::min(pts[i].x, 0.999), y = std::min(pts[i].y, 0.999), z = std::min(pts[i].z, 0.999);
+        parts.push_back({{Real(corner + x*box.width), Real(corner + y*box.width), Real(corner + z*box.width), Real(pts[i].q)}});
+    }
+    const std::string base = std::string(KT::name()) + "-periodic order=" + std::to_string(ORD) + " real=" + (sizeof(Real) == 4 ? "float" : "double") + " height=" + std::to_string(height)
+        + " box=" + box.name + " set=" + std::to_string(setId) + " extra=" + std::to_string(extra) + " n=" + std::to_string(parts.size());
+    if(!pg.begin(base)) return;
+    const std::array<Real,3> w{{Real(box.width), Real(box.width), Real(box.width)}}, c{{Real(box.centre), Real(box.centre), Real(box.centre)}};
+    const TbfSpacialConfiguration<Real,3> cfg(height, w, c);
+    Outcome out;
+    Res got; long lo = 0, hi = 0;
+    {
+        Tree tree(cfg, parts, 3, false);
+        beat();
+        auto k = KT::maker()(cfg);
+        auto kTop = KT::maker()(Top::GenerateAboveTreeConfiguration(cfg, extra));
+        auto algo = std::make_unique<TbfAlgorithm<Real, Kernel, SIP>>(cfg, *k, TbfDefaultLastLevelPeriodic);
+        auto top = std::make_unique<Top>(cfg, *kTop, extra);
+        algo->execute(tree, TbfAlgorithmUtils::TbfBottomToTopStages);
+        top->execute(tree);
+        algo->execute(tree, TbfAlgorithmUtils::TbfTransferStages);
+        algo->execute(tree, TbfAlgorithmUtils::TbfTopToBottomStages);
+        const auto iv = top->getRepetitionsIntervals(); lo = iv.first[0]; hi = iv.second[0];
+        const size_t n = parts.size();
+        got.pot.assign(n, 0); got.fx.assign(n, 0); got.fy.assign(n, 0); got.fz.assign(n, 0);
+        tree.applyToAllLeaves([&](auto&& header, const long int* idxs, auto&& /*data*/, auto&& rhs){
+            for(long p = 0 ; p < header.nbParticles ; ++p){
+                const long id = idxs[p];
+                got.fx[id] = rhs[0][p]; got.fy[id] = rhs[1][p]; got.fz[id] = rhs[2][p]; got.pot[id] = rhs[3][p];
+                for(int v = 0 ; v < 4 ; ++v) if(!std::isfinite(double(rhs[v][p]))) out.add("numeric:not-finite", base);
+            }
+        });
+    }
+    beat();
+    // explicit sum over the images of the reported interval
+    const size_t n = parts.size();
+    Res ex; ex.pot.assign(n, 0); ex.fx.assign(n, 0); ex.fy.assign(n, 0); ex.fz.assign(n, 0);
+    std::vector<long double> apot(n, 0), aforce(n, 0);
+    const long double W = (long double)Real(box.width);
+    for(size_t i = 0 ; i < n ; ++i) for(size_t j = 0 ; j < n ; ++j) for(long a = lo ; a <= hi ; ++a) for(long b = lo ; b <= hi ; ++b) for(long cc = lo ; cc <= hi ; ++cc){
+        if(i == j && a == 0 && b == 0 && cc == 0) continue;
+        const long double dx = (long double)parts[j][0] + a*W - parts[i][0], dy = (long double)parts[j][1] + b*W - parts[i][1], dz = (long double)parts[j][2] + cc*W - parts[i][2];
+        const long double r2 = dx*dx + dy*dy + dz*dz, rr = sqrtl(r2);
+        const long double co = (long double)parts[i][3] * parts[j][3] / (r2*rr);
+        ex.pot[i] += (long double)parts[j][3] / rr; ex.fx[i] += co*dx; ex.fy[i] += co*dy; ex.fz[i] += co*dz;
+        apot[i] += fabsl((long double)parts[j][3]) / rr; aforce[i] += fabsl((long double)parts[i][3]*parts[j][3]) / r2;
+    }
+    const Err e = relErr(got, ex, apot, aforce);
+    const std::string tag = std::string("periodic order=") + std::to_string(ORD) + (sizeof(Real) == 4 ? " float" : " double");
+    ms.worstPot[tag] = std::max(ms.worstPot[tag], e.pot); ms.worstForce[tag] = std::max(ms.worstForce[tag], e.force);
+    if(e.pot > boundPotPer(ORD)){ std::ostringstream o; o << base << ": potential error " << (double)e.pot << " against the explicit sum over images " << lo << ".." << hi << " above the bound " << boundPotPer(ORD); out.add("accuracy:periodic-potential-above-order-bound", o.str()); }
+    if(e.force > boundForcePer(ORD)){ std::ostringstream o; o << base << ": force error " << (double)e.force << " above the bound " << boundForcePer(ORD); out.add("accuracy:periodic-force-above-order-bound", o.str()); }
+    rep.evaluations += 1; rep.nontrivial += 1;
+    rep.addOutcome(out, base);
+}
+
+template <class Real, class KT, int ORD>
+void evalTsmNum(const int height, const int boxId, const int setSrc, const int setTgt, Report& rep, Progress& pg, Measure& ms){
+    using SI = TbfDefaultSpaceIndexType<Real>;
+    using M = typename KT::M; using L = typename KT::L; using Kernel = typename KT::Kernel;
+    using TreeT = TbfTreeTsm<Real, Real, 4, Real, 4, M, L, SI>;
+    const BoxN& box = BOXES[boxId];
+    auto mk = [&](int id){ std::vector<std::array<Real,4>> v; const double corner = box.centre - box.width/2;
+        for(const Pt& p : particleSet(id)) v.push_back({{Real(corner + p.x*box.width), Real(corner + p.y*box.width), Real(corner + p.z*box.width), Real(p.q)}}); return v; };
+    const auto src = mk(setSrc); auto tgt = mk(setTgt);
+    // 1/r is singular for a target that coincides with a source: not part of the input space
+    tgt.erase(std::remove_if(tgt.begin(), tgt.end(), [&](const std::array<Real,4>& t){ for(const auto& q : src) if(q[0] == t[0] && q[1] == t[1] && q[2] == t[2]) return true; return false; }), tgt.end());
+    const std::string base = std::string(KT::name()) + "-tsm order=" + std::to_string(ORD) + " real=" + (sizeof(Real) == 4 ? "float" : "double") + " height=" + std::to_string(height)
+        + " box=" + box.name + " sources=set" + std::to_string(setSrc) + " targets=set" + std::to_string(setTgt);
+    if(!pg.begin(base)) return;
+    const std::array<Real,3> w{{Real(box.width), Real(box.width), Real(box.width)}}, c{{Real(box.centre), Real(box.centre), Real(box.centre)}};
+    const TbfSpacialConfiguration<Real,3> cfg(height, w, c);
+    Outcome out;
+    const size_t n = tgt.size();
+    Res got; got.pot.assign(n, 0); got.fx.assign(n, 0); got.fy.assign(n, 0); got.fz.assign(n, 0);
+    {
+        TreeT tree(cfg, src, tgt, 3, false);
+        beat();
+        auto k = KT::maker()(cfg);
+        auto algo = std::make_unique<TbfAlgorithmTsm<Real, Kernel, SI>>(cfg, *k);
+        algo->execute(tree);
+        tree.applyToAllLeavesTarget([&](auto&& header, const long int* idxs, auto&& /*data*/, auto&& rhs){
+            for(long p = 0 ; p < header.nbParticles ; ++p){
+                const long id = idxs[p];
+                got.fx[id] = rhs[0][p]; got.fy[id] = rhs[1][p]; got.fz[id] = rhs[2][p]; got.pot[id] = rhs[3][p];
+                for(int v = 0 ; v < 4 ; ++v) if(!std::isfinite(double(rhs[v][p]))) out.add("numeric:not-finite", base);
+            }
+        });
+    }
+    Res ex; ex.pot.assign(n, 0); ex.fx.assign(n, 0); ex.fy.assign(n, 0); ex.fz.assign(n, 0);
+    std::vector<long double> apot(n, 0), aforce(n, 0);
+    for(size_t i = 0 ; i < n ; ++i) for(size_t j = 0 ; j < src.size() ; ++j){
+        const long double dx = (long double)src[j][0] - tgt[i][0], dy = (long double)src[j][1] - tgt[i][1], dz = (long double)src[j][2] - tgt[i][2];
+        const long double r2 = dx*dx + dy*dy + dz*dz, rr = sqrtl(r2);
+        if(r2 == 0) continue;
+        const long double co = (long double)tgt[i][3] * src[j][3] / (r2*rr);
+        ex.pot[i] += (long double)src[j][3] / rr; ex.fx[i] += co*dx; ex.fy[i] += co*dy; ex.fz[i] += co*dz;
+        apot[i] += fabsl((long double)src[j][3]) / rr; aforce[i] += fabsl((long double)tgt[i][3]*src[j][3]) / r2;
+    }
+    const Err e = relErr(got, ex, apot, aforce);
+    const std::string tag = std::string("tsm order=") + std::to_string(ORD) + (sizeof(Real) == 4 ? " float" : " double");
+    ms.worstPot[tag] = std::max(ms.worstPot[tag], e.pot); ms.worstForce[tag] = std::max(ms.worstForce[tag], e.force);
+    if(e.pot > boundPot(ORD)){ std::ostringstream o; o << base << ": potential error " << (double)e.pot << " above the bound " << boundPot(ORD); out.add("accuracy:tsm-potential-above-order-bound", o.str()); }
+    if(e.force > boundForce(ORD)){ std::ostringstream o; o << base << ": force error " << (double)e.force << " above the bound " << boundForce(ORD); out.add("accuracy:tsm-force-above-order-bound", o.str()); }
+    rep.evaluations += 1; rep.nontrivial += 1;
+    rep.addOutcome(out, base);
+}
+
 } // namespace
 
 int main(int argc, char** argv){
@@ -276,6 +412,19 @@ int main(int argc, char** argv){
             }
             ms.checkMonotone(rep);
         }
+        // periodic variant (explicit image sum) and target/source variant
+        for(int h = 2 ; h <= (thorough ? 4 : 3) ; ++h) for(int b = 0 ; b < 2 ; ++b) for(int s = 1 ; s <= 3 ; ++s) for(long extra = -1 ; extra <= (thorough ? 2 : 1) ; ++extra){
+            if(rep.timeUp()){ rep.exhaustive = false; return; }
+            if(!mine()) continue;
+            evalPeriodicNum<double, K4<double,4>, 4>(h, b, s, extra, rep, pg, ms);
+            evalPeriodicNum<double, K4<double,8>, 8>(h, b, s, extra, rep, pg, ms);
+        }
+        for(int h = 1 ; h <= maxH ; ++h) for(int b = 0 ; b < 2 ; ++b) for(int s = 0 ; s < 3 ; ++s){
+            if(rep.timeUp()){ rep.exhaustive = false; return; }
+            if(!mine()) continue;
+            evalTsmNum<double, K4<double,4>, 4>(h, b, s, (s+1)%4, rep, pg, ms);
+            evalTsmNum<double, K4<double,8>, 8>(h, b, s, (s+2)%4, rep, pg, ms);
+        }
 #endif
 #ifdef VF_C05
         rep.spaces.push_back("uniform kernel: order in {4,6" + std::string(thorough ? ",3,5,7,8" : "") + "} x heights 1.." + std::to_string(maxH) + " x boxes x 4 particle sets x {double" + (thorough ? ",float" : "") + "} x groupings (block size 1 = one batch per child group vs single batch) x executors + linearity");
@@ -293,6 +442,18 @@ int main(int argc, char** argv){
                 if(b < 2) evalConfig<float, K5<float,6>, 6>(h, b, s, rep, pg, thorough, ms);
             }
             ms.checkMonotone(rep);
+        }
+        for(int h = 2 ; h <= (thorough ? 4 : 3) ; ++h) for(int b = 0 ; b < 2 ; ++b) for(int s = 1 ; s <= 3 ; ++s) for(long extra = -1 ; extra <= (thorough ? 2 : 1) ; ++extra){
+            if(rep.timeUp()){ rep.exhaustive = false; return; }
+            if(!mine()) continue;
+            evalPeriodicNum<double, K5<double,4>, 4>(h, b, s, extra, rep, pg, ms);
+            evalPeriodicNum<double, K5<double,6>, 6>(h, b, s, extra, rep, pg, ms);
+        }
+        for(int h = 1 ; h <= maxH ; ++h) for(int b = 0 ; b < 2 ; ++b) for(int s = 0 ; s < 3 ; ++s){
+            if(rep.timeUp()){ rep.exhaustive = false; return; }
+            if(!mine()) continue;
+            evalTsmNum<double, K5<double,4>, 4>(h, b, s, (s+1)%4, rep, pg, ms);
+            evalTsmNum<double, K5<double,6>, 6>(h, b, s, (s+2)%4, rep, pg, ms);
         }
 #endif
         for(const auto& kv : ms.worstPot) rep.counters["max_err_pot_1e-9 " + kv.first] = (unsigned long)(kv.second * 1e9L);
